@@ -396,6 +396,7 @@ fn verify_images(
     accept: &[DbState],
     in_txn: bool,
     first_ordinal: u64,
+    after_checkpoint: bool,
 ) {
     if images.is_empty() {
         return;
@@ -446,6 +447,8 @@ fn verify_images(
                 ("crash_role", img.point.role.as_str().to_string()),
                 ("model", img.model.as_str().split('(').next().unwrap_or("").to_string()),
                 ("wal", ctx.swarm.cfg.wal.to_string()),
+                ("after_checkpoint", after_checkpoint.to_string()),
+                ("auto_ckpt", ctx.swarm.cfg.checkpoint_threshold.is_some().to_string()),
             ]
         };
         let where_ = format!(
@@ -523,10 +526,24 @@ fn verify_images(
                         None => {}
                     }
                 }
-                // C02: classify against the nearest acceptable state
+                // C02: classify against the nearest acceptable state (mildest kind of difference)
                 let d_acked = diff_obs(&exp_acked, &obs, &plan);
                 let d_full = exp_accept.last().and_then(|e| diff_obs(e, &obs, &plan));
-                let d = d_full.clone().or(d_acked.clone());
+                let severity = |d: &Option<ObsDiff>| -> u32 {
+                    match d.as_ref().map(|d| d.what.as_str()) {
+                        None => 0,
+                        Some("count") => 1,
+                        Some("lookup") => 2,
+                        Some("scan") => 3,
+                        _ => 4,
+                    }
+                };
+                let mut cands: Vec<Option<ObsDiff>> = vec![d_acked.clone()];
+                for e in &exp_accept {
+                    cands.push(diff_obs(e, &obs, &plan));
+                }
+                cands.sort_by_key(|c| severity(c));
+                let d = cands.into_iter().next().flatten().or(d_full.clone());
                 let (verdict, detail) = match &d {
                     Some(d) => {
                         let v = match d.what.as_str() {
@@ -600,6 +617,7 @@ pub fn run_history(ctx: &mut Ctx, src: &mut Source, seed: u64) -> Option<History
     let mut sched = Rng::new(mix(seed, 0x5C4ED));
     let mut rolled_back = false;
     let mut ever_long = false;
+    let mut after_checkpoint = false;
     let mut ddl_since_reopen: Vec<&'static str> = vec![];
     let mut since_open: Vec<&'static str> = vec![];
     loop {
@@ -891,6 +909,9 @@ pub fn run_history(ctx: &mut Ctx, src: &mut Source, seed: u64) -> Option<History
         if matches!(op, Op::Rollback | Op::RollbackTo(_)) && actual.is_ok() {
             rolled_back = true;
         }
+        if matches!(op, Op::Checkpoint | Op::PragmaCheckpoint | Op::CloseReopen) {
+            after_checkpoint = true;
+        }
         if op.is_write() && actual.is_ok() && !since_open.contains(&op.kind()) {
             since_open.push(op.kind());
             since_open.sort();
@@ -918,7 +939,8 @@ pub fn run_history(ctx: &mut Ctx, src: &mut Source, seed: u64) -> Option<History
                 accept.push(view_before.clone());
             }
             let acked = committed_before.clone();
-            verify_images(ctx, images, step_idx, op, &acked, &accept, in_txn_before, first_ordinal);
+            let ckpt = after_checkpoint || matches!(op, Op::Checkpoint | Op::PragmaCheckpoint | Op::CloseReopen);
+            verify_images(ctx, images, step_idx, op, &acked, &accept, in_txn_before, first_ordinal, ckpt);
         }
         let _ = crash_profile;
 
